@@ -1,9 +1,8 @@
 (* Model of strax/processing/statistics.py::highest_density_region (with _compute_hdr_core,
    _compute_fraction_seen, _compute_true_height, _process_intervals_numba).  Executable definitions
-   only; the only theorem about this model is that returned intervals fit the result buffer
-   (Proof/HDRProof.v); everything else rests on correspondence.
-   Samples are integers, fractions and amplitudes exact rationals.  The buffer test is the repaired
-   `len(gaps) >= _buffer_size` (/repo commit 1da565c). *)
+   only.  Samples are integers, fractions and amplitudes exact rationals.  The buffer test is the
+   repaired `len(gaps) >= _buffer_size` (/repo commit 1da565c), the tie test starts from the largest
+   sample (/repo commit 2181c25). *)
 From Coq Require Export QArith.
 From SV Require Export Base.Prelude Model.PeakHelpers Model.Merging.
 Open Scope Z_scope.
@@ -71,5 +70,7 @@ Definition highest_density_region (data : list Z) (fs : list Q) (upper : bool) (
   else
     let n := zlen data in
     let m2m := rev (argsort data) in
-    let '(outs, rem) := hdr_loop data m2m area_tot upper bs (zseqn 1 (length data - 1)) None fs in
+    (* lowest_sample_seen = data[max_to_min[0]] (/repo 2181c25; it was np.inf = None before) *)
+    let '(outs, rem) := hdr_loop data m2m area_tot upper bs (zseqn 1 (length data - 1))
+                                 (Some (zget data (zget m2m 0))) fs in
     Ok (outs ++ map (fun fd => mkho (Some [(0, n)]) ((1 - fd) * inject_Z area_tot / inject_Z n)%Q) rem).
